@@ -1012,7 +1012,8 @@ func checkLogsGrouping(c *Ctx, rule string) {
 	}
 	// consumption: range over that map; block = bm[k.a]; tx = b.Tx(k.b); Add(logs[j].Log)
 	okUse := false
-	for _, ci := range callsIn(fn) {
+	reg := NewRegion(fn) // the attach step may live in a helper
+	for _, ci := range reg.Calls() {
 		call, ok := ci.(*ssa.Call)
 		if !ok {
 			continue
@@ -1027,7 +1028,7 @@ func checkLogsGrouping(c *Ctx, rule string) {
 		if txCall == nil || staticCallee(txCall) == nil || staticCallee(txCall).Name() != "Tx" {
 			continue
 		}
-		kb := txCall.Call.Args[1]
+		kb := reg.Resolve(txCall.Call.Args[1])
 		bv := txCall.Call.Args[0]
 		if e, ok := bv.(*ssa.Extract); ok {
 			bv = e.Tuple
@@ -1036,7 +1037,7 @@ func checkLogsGrouping(c *Ctx, rule string) {
 		if !ok {
 			continue
 		}
-		ra, ca := fieldChain(lk.Index)
+		ra, ca := fieldChain(reg.Resolve(lk.Index))
 		rb, cb := fieldChain(kb)
 		if len(ca) != 1 || len(cb) != 1 || ca[0].Name() != "a" || cb[0].Name() != "b" || ra != rb {
 			// same key value, first and second field
@@ -1065,7 +1066,7 @@ func checkLogsGrouping(c *Ctx, rule string) {
 		keyOK := fromRange(ra, 1)
 		logRoot, _ := fieldChain(call.Call.Args[1])
 		ls, _, lok := elemOf(logRoot)
-		valOK := lok && fromRange(ls, 2)
+		valOK := lok && fromRange(reg.Resolve(stripConv(ls)), 2)
 		if keyOK && valOK {
 			okUse = true
 		}
